@@ -3,7 +3,9 @@
 patch="$(readlink -f "$1")"; tier="$2"; shift 2
 if [ -n "$(git -C /repo status --porcelain)" ]; then echo "/repo not clean"; exit 3; fi
 git -C /repo apply "$patch" || { echo "patch does not apply"; exit 3; }
-trap 'git -C /repo checkout -- . ; git -C /repo clean -fdq' EXIT INT TERM
+# evidence written while a patch is applied must never end up committed: keep the clean-tree files
+rm -rf /tmp/evidence.keep && cp -r /verif/evidence /tmp/evidence.keep
+trap 'git -C /repo checkout -- . ; git -C /repo clean -fdq; rm -rf /verif/evidence; mv /tmp/evidence.keep /verif/evidence' EXIT INT TERM
 for id in "$@"; do
   out=$(cd /verif && VERIF_SEED=${VERIF_SEED:-1} ./check "$id" --tier "$tier" 2>&1); rc=$?
   echo "[$id rc=$rc] $(echo "$out" | grep -E 'VIOLATION|INCONCLUSIVE|violation in' | head -3 | tr '\n' ' ')"
